@@ -45,7 +45,8 @@ type Build struct {
 	Pairs [][2]string `json:"pairs"`
 	// WithOptional is the value passed for the reserved name withOptional
 	// ("-" = the pair is not passed at all); the optional segment is asked for
-	// only by the documented value "true".
+	// by the documented value "true"; "false", "0" and "" do not ask for it
+	// (other truthy spellings are left alone: the documentation names "true" only).
 	WithOptional string `json:"with_optional"`
 }
 
@@ -417,7 +418,7 @@ func genCase(t *rapid.T) Case {
 			_, b, _ := s.Classify()
 			binds = append(binds, b...)
 		}
-		b := Build{Name: r.Name, WithOptional: []string{"-", "-", "true", "true", "false", "TRUE", "1", "", "yes"}[rapid.IntRange(0, 8).Draw(t, "wo")]}
+		b := Build{Name: r.Name, WithOptional: []string{"-", "-", "true", "true", "false", "", "0"}[rapid.IntRange(0, 6).Draw(t, "wo")]}
 		for _, bn := range binds {
 			var v string
 			switch rapid.IntRange(0, 8).Draw(t, "vk") {
